@@ -52,7 +52,7 @@ static inline bool LS_GCDH(i128 x, i128 y, i128 r){
   return T_DIVID(x, y) && T_MULR(r, y, q) && T_SUM(r, M_(y, q), m, x) && T_MULR(g_d, y, q) && T_DIFF(g_d, x, M_(y, q), m) && T_SMALL(r, x) && T_SMALL(r, y)
       && T_TRANS(g_e, r, x) && T_TRANS(g_e, r, y); }
 //@check id=gcd_helper fn=_ZNK4ikos10congruenceINS_8z_numberEE10gcd_helperES1_S1_ props=C08 rec=1 cost=9 backends=minisat,kissat first_timeout=900 timeout=900
-//@check id=gcd_helper_b fn=_ZNK4ikos10congruenceINS_8z_numberEE10gcd_helperES1_S1_ tag=gcd_helper harness=h_gcd_helper props=C08 rec=1 defs=ZM_SMALL=16,ZBITS=3 tier=thorough backends=minisat,kissat first_timeout=400 timeout=600
+//@check id=gcd_helper_b fn=_ZNK4ikos10congruenceINS_8z_numberEE10gcd_helperES1_S1_ tag=gcd_helper harness=h_gcd_helper props=C08 rec=1 defs=ZM_SMALL=16,ZBITS=3 tier=thorough backends=minisat,kissat first_timeout=400 timeout=600 bounded="bit-precise small arithmetic: operands below 2^3 in magnitude only"
 void _ZNK4ikos10congruenceINS_8z_numberEE10gcd_helperES1_S1_(Z *ret, C *self, Z *x, Z *y)
 __CPROVER_requires(FRESH(gcd_helper, ret, sizeof(Z)) && FRESH(gcd_helper, x, sizeof(Z)) && FRESH(gcd_helper, y, sizeof(Z)))
 __CPROVER_requires(X >= 0 && Y >= 0 && X < CTB && Y < CTB && inb(g_d, CTB) && inb(g_e, CTB))
@@ -67,7 +67,7 @@ void h_gcd_helper(void){ IN(Z, a); IN(Z, b); HGHOSTS; C c; Z r; g_top_x = &a; _Z
 static inline bool LS_GCD2(i128 x, i128 y, i128 r){
   return T_DIFF(r, 0, -x, x) && T_DIFF(r, 0, -y, y) && T_DIFF(g_d, 0, x, -x) && T_DIFF(g_d, 0, y, -y) && T_TRANS(g_e, r, x) && T_TRANS(g_e, r, y); }
 //@check id=gcd2 fn=_ZNK4ikos10congruenceINS_8z_numberEE3gcdES1_S1_ props=C08 replace=_ZNK4ikos10congruenceINS_8z_numberEE10gcd_helperES1_S1_ backends=minisat,kissat first_timeout=900 timeout=900
-//@check id=gcd2_b fn=_ZNK4ikos10congruenceINS_8z_numberEE3gcdES1_S1_ tag=gcd2 harness=h_gcd2 props=C08 defs=ZM_SMALL=16,ZBITS=3 replace=_ZNK4ikos10congruenceINS_8z_numberEE10gcd_helperES1_S1_ tier=thorough backends=minisat,kissat first_timeout=400 timeout=600
+//@check id=gcd2_b fn=_ZNK4ikos10congruenceINS_8z_numberEE3gcdES1_S1_ tag=gcd2 harness=h_gcd2 props=C08 defs=ZM_SMALL=16,ZBITS=3 replace=_ZNK4ikos10congruenceINS_8z_numberEE10gcd_helperES1_S1_ tier=thorough backends=minisat,kissat first_timeout=400 timeout=600 bounded="bit-precise small arithmetic: operands below 2^3 in magnitude only"
 void _ZNK4ikos10congruenceINS_8z_numberEE3gcdES1_S1_(Z *ret, C *self, Z *x, Z *y)
 __CPROVER_requires(FRESH(gcd2, ret, sizeof(Z)) && FRESH(gcd2, x, sizeof(Z)) && FRESH(gcd2, y, sizeof(Z)))
 __CPROVER_requires(inb(X, CTB) && inb(Y, CTB) && inb(g_d, CTB) && inb(g_e, CTB))
@@ -76,11 +76,11 @@ __CPROVER_ensures(IMP(WHEN(gcd2, LEM(LS_GCD2(X, Y, R))), IS_GCD(R, X, Y) && GCD_
 void h_gcd2(void){ IN(Z, a); IN(Z, b); HGHOSTS; C c; Z r; _ZNK4ikos10congruenceINS_8z_numberEE3gcdES1_S1_(&r, &c, &a, &b); REACH; }
 /* BOUNDED: the same contract with the real recursive gcd_helper in line (Euclid on values below 2^4 makes at most 6
  * recursive calls) */
-//@check id=gcd2_unwound fn=_ZNK4ikos10congruenceINS_8z_numberEE3gcdES1_S1_ tag=gcd2 harness=h_gcd2 props=C08 noauto=1 defs=ZM_SMALL=16,ZBITS=3,CTBITS=4 unwind=8 cbmc=--unwindset,zs_udivrem.0:15,--unwindset,s_udivrem.0:15 backends=minisat,kissat first_timeout=400 timeout=600
+//@check id=gcd2_unwound fn=_ZNK4ikos10congruenceINS_8z_numberEE3gcdES1_S1_ tag=gcd2 harness=h_gcd2 props=C08 noauto=1 defs=ZM_SMALL=16,ZBITS=3,CTBITS=4 unwind=8 cbmc=--unwindset,zs_udivrem.0:15,--unwindset,s_udivrem.0:15 backends=minisat,kissat first_timeout=400 timeout=600 bounded="bit-precise small arithmetic: operands below 2^3 in magnitude only"
 /* gcd(x, y, z) = gcd(x, gcd(y, z)).  That the result divides y and z comes from GCD_LOWER of the inner call at
  * g_e = result: the enforced form is guarded by that alignment. */
 //@check id=gcd3 fn=_ZNK4ikos10congruenceINS_8z_numberEE3gcdES1_S1_S1_ props=C08 replace=_ZNK4ikos10congruenceINS_8z_numberEE3gcdES1_S1_ backends=minisat,kissat first_timeout=900 timeout=900
-//@check id=gcd3_b fn=_ZNK4ikos10congruenceINS_8z_numberEE3gcdES1_S1_S1_ tag=gcd3 harness=h_gcd3 props=C08 defs=ZM_SMALL=16,ZBITS=3 replace=_ZNK4ikos10congruenceINS_8z_numberEE3gcdES1_S1_ tier=thorough backends=minisat,kissat first_timeout=400 timeout=600
+//@check id=gcd3_b fn=_ZNK4ikos10congruenceINS_8z_numberEE3gcdES1_S1_S1_ tag=gcd3 harness=h_gcd3 props=C08 defs=ZM_SMALL=16,ZBITS=3 replace=_ZNK4ikos10congruenceINS_8z_numberEE3gcdES1_S1_ tier=thorough backends=minisat,kissat first_timeout=400 timeout=600 bounded="bit-precise small arithmetic: operands below 2^3 in magnitude only"
 void _ZNK4ikos10congruenceINS_8z_numberEE3gcdES1_S1_S1_(Z *ret, C *self, Z *x, Z *y, Z *z)
 __CPROVER_requires(FRESH(gcd3, ret, sizeof(Z)) && FRESH(gcd3, x, sizeof(Z)) && FRESH(gcd3, y, sizeof(Z)) && FRESH(gcd3, z, sizeof(Z)))
 __CPROVER_requires(inb(X, CTB) && inb(Y, CTB) && inb(W, CTB) && inb(g_d, CTB) && inb(g_e, CTB))
@@ -92,7 +92,7 @@ __CPROVER_ensures(IMP(dvd(g_d, X) && dvd(g_d, Y) && dvd(g_d, W), dvd(g_d, R)));
 void h_gcd3(void){ IN(Z, a); IN(Z, b); IN(Z, c); HGHOSTS; C s; Z r; _ZNK4ikos10congruenceINS_8z_numberEE3gcdES1_S1_S1_(&r, &s, &a, &b, &c); REACH; }
 /* lcm(x, y) = |x * y| / gcd(x, y) for x, y != 0 (the only use): a positive common multiple that divides every common
  * multiple g_d.  BOUNDED: the real gcd / gcd_helper in line ("least" needs "greatest" at another point than g_d). */
-//@check id=lcm fn=_ZNK4ikos10congruenceINS_8z_numberEE3lcmES1_S1_ props=C08 defs=ZM_SMALL=16,ZBITS=3 unwind=8 cbmc=--unwindset,zs_udivrem.0:15,--unwindset,s_udivrem.0:15 backends=minisat,kissat first_timeout=400 timeout=600
+//@check id=lcm noauto=1 fn=_ZNK4ikos10congruenceINS_8z_numberEE3lcmES1_S1_ props=C08 defs=ZM_SMALL=16,ZBITS=3 unwind=8 cbmc=--unwindset,zs_udivrem.0:15,--unwindset,s_udivrem.0:15 backends=minisat,kissat first_timeout=400 timeout=600 bounded="bit-precise small arithmetic: operands below 2^3 in magnitude only"
 void _ZNK4ikos10congruenceINS_8z_numberEE3lcmES1_S1_(Z *ret, C *self, Z *x, Z *y)
 __CPROVER_requires(FRESH(lcm, ret, sizeof(Z)) && FRESH(lcm, x, sizeof(Z)) && FRESH(lcm, y, sizeof(Z)))
 __CPROVER_requires(inb(X, ZB) && inb(Y, ZB) && X != 0 && Y != 0 && inb(g_d, ZB2))
@@ -123,7 +123,7 @@ ZBI(max, _ZNK4ikos10congruenceINS_8z_numberEE3maxES1_S1_, imax(X, Y))
 /* congruence(Number a, Number b) [private]: the value aZ+b in normal form.  a may have either sign
  * (operator/ passes m_a / o.m_b). */
 //@check id=ctor_ab fn=_ZN4ikos10congruenceINS_8z_numberEEC2ES1_S1_ props=C08,C04 backends=minisat,kissat first_timeout=900 timeout=900
-//@check id=ctor_ab_b fn=_ZN4ikos10congruenceINS_8z_numberEEC2ES1_S1_ tag=ctor_ab harness=h_ctor_ab props=C08,C04 defs=ZM_SMALL=16,ZBITS=3 backends=minisat,kissat first_timeout=400 timeout=600
+//@check id=ctor_ab_b fn=_ZN4ikos10congruenceINS_8z_numberEEC2ES1_S1_ tag=ctor_ab harness=h_ctor_ab props=C08,C04 defs=ZM_SMALL=16,ZBITS=3 backends=minisat,kissat first_timeout=400 timeout=600 bounded="bit-precise small arithmetic: operands below 2^3 in magnitude only"
 void _ZN4ikos10congruenceINS_8z_numberEEC2ES1_S1_(C *self, Z *a, Z *b)
 __CPROVER_requires(FRESH(ctor_ab, self, sizeof(C)) && FRESH(ctor_ab, a, sizeof(Z)) && FRESH(ctor_ab, b, sizeof(Z)))
 __CPROVER_requires(inb(zraw(*a), CTB) && inb(zraw(*b), CTB) && TOP(ctor_ab, GRANGE))
@@ -135,7 +135,7 @@ void h_ctor_ab(void){ IN(Z, a); IN(Z, b); HGHOSTS; C r; _ZN4ikos10congruenceINS_
 /* normalize() [private, only called by the (a, b) constructor on a non-bottom value]: brings the modulus to |a| and the
  * remainder into [0, |a|) and leaves the described set unchanged */
 //@check id=normalize fn=_ZN4ikos10congruenceINS_8z_numberEE9normalizeEv props=C08,C04 backends=minisat,kissat first_timeout=900 timeout=900
-//@check id=normalize_b fn=_ZN4ikos10congruenceINS_8z_numberEE9normalizeEv tag=normalize harness=h_normalize props=C08,C04 defs=ZM_SMALL=16,ZBITS=3 backends=minisat,kissat first_timeout=400 timeout=600
+//@check id=normalize_b fn=_ZN4ikos10congruenceINS_8z_numberEE9normalizeEv tag=normalize harness=h_normalize props=C08,C04 defs=ZM_SMALL=16,ZBITS=3 backends=minisat,kissat first_timeout=400 timeout=600 bounded="bit-precise small arithmetic: operands below 2^3 in magnitude only"
 void _ZN4ikos10congruenceINS_8z_numberEE9normalizeEv(C *self)
 __CPROVER_requires(FRESH(normalize, self, sizeof(C)) && self->f0 == 0 && inb(c_a(*self), CTB) && inb(c_b(*self), CTB) && TOP(normalize, GRANGE))
 __CPROVER_assigns(*self)
@@ -267,8 +267,8 @@ void h_ne(void){ IN(C, a); IN(C, b); _ZNK4ikos10congruenceINS_8z_numberEEneERKS2
 #define LEQ_EXACT 1
 #endif
 //@check id=leq fn=_ZNK4ikos10congruenceINS_8z_numberEEleERKS2_ props=C08,C04 backends=minisat,kissat first_timeout=900 timeout=900
-//@check id=leq_b fn=_ZNK4ikos10congruenceINS_8z_numberEEleERKS2_ tag=leq harness=h_leq props=C08,C04 defs=ZM_SMALL=16,ZBITS=3 backends=minisat,kissat first_timeout=400 timeout=600
-//@check id=leq_exact fn=_ZNK4ikos10congruenceINS_8z_numberEEleERKS2_ tag=leq harness=h_leq props=C04 defs=ZM_SMALL=16,ZBITS=3 backends=minisat,kissat first_timeout=400 timeout=600
+//@check id=leq_b fn=_ZNK4ikos10congruenceINS_8z_numberEEleERKS2_ tag=leq harness=h_leq props=C08,C04 defs=ZM_SMALL=16,ZBITS=3 backends=minisat,kissat first_timeout=400 timeout=600 bounded="bit-precise small arithmetic: operands below 2^3 in magnitude only"
+//@check id=leq_exact fn=_ZNK4ikos10congruenceINS_8z_numberEEleERKS2_ tag=leq harness=h_leq props=C04 defs=ZM_SMALL=16,ZBITS=3 backends=minisat,kissat first_timeout=400 timeout=600 bounded="bit-precise small arithmetic: operands below 2^3 in magnitude only"
 unsigned char _ZNK4ikos10congruenceINS_8z_numberEEleERKS2_(C *self, C *x)
 __CPROVER_requires(CFRESH2(leq) && c_ok(*self) && c_ok(*x) && TOP(leq, GRANGE))
 __CPROVER_assigns()
@@ -279,7 +279,7 @@ __CPROVER_ensures(c_eq(*self, *x) ==> RV)
 __CPROVER_ensures(LEQ_EXACT);
 void h_leq(void){ IN(C, a); IN(C, b); HGHOSTS; _ZNK4ikos10congruenceINS_8z_numberEEleERKS2_(&a, &b); REACH; }
 /* reflexivity: the same object on both sides */
-//@check id=leq_refl fn=_ZNK4ikos10congruenceINS_8z_numberEEleERKS2_ tag=leq props=C04 defs=ZM_SMALL=16,ZBITS=3 backends=minisat,kissat first_timeout=400 timeout=600
+//@check id=leq_refl fn=_ZNK4ikos10congruenceINS_8z_numberEEleERKS2_ tag=leq props=C04 defs=ZM_SMALL=16,ZBITS=3 backends=minisat,kissat first_timeout=400 timeout=600 bounded="bit-precise small arithmetic: operands below 2^3 in magnitude only"
 void h_leq_refl(void){ IN(C, a); HGHOSTS; unsigned char r = _ZNK4ikos10congruenceINS_8z_numberEEleERKS2_(&a, &a); __CPROVER_assert(r, "x <= x"); REACH; }
 
 /* ================================================================ binary operations */
@@ -295,18 +295,18 @@ void h_##tag(void){ IN(C, a); IN(C, b); HGHOSTS; C r; fn(&r, &a, &b); REACH; }
 
 /* join: describes at least both operands */
 //@check id=join fn=_ZNK4ikos10congruenceINS_8z_numberEEorERKS2_ props=C08,C04 cost=5 replace=_ZN4ikos10congruenceINS_8z_numberEEC2ES1_S1_,_ZNK4ikos10congruenceINS_8z_numberEE3gcdES1_S1_S1_ backends=minisat,kissat first_timeout=900 timeout=900
-//@check id=join_b fn=_ZNK4ikos10congruenceINS_8z_numberEEorERKS2_ tag=join harness=h_join props=C08,C04 defs=ZM_SMALL=16,ZBITS=3 replace=_ZN4ikos10congruenceINS_8z_numberEEC2ES1_S1_,_ZNK4ikos10congruenceINS_8z_numberEE3gcdES1_S1_S1_ tier=thorough backends=minisat,kissat first_timeout=400 timeout=600
+//@check id=join_b fn=_ZNK4ikos10congruenceINS_8z_numberEEorERKS2_ tag=join harness=h_join props=C08,C04 defs=ZM_SMALL=16,ZBITS=3 replace=_ZN4ikos10congruenceINS_8z_numberEEC2ES1_S1_,_ZNK4ikos10congruenceINS_8z_numberEE3gcdES1_S1_S1_ tier=thorough backends=minisat,kissat first_timeout=400 timeout=600 bounded="bit-precise small arithmetic: operands below 2^3 in magnitude only"
 CBIN(join, _ZNK4ikos10congruenceINS_8z_numberEEorERKS2_)
 /* meet: describes at least the integers common to both operands.  The loop (extended Euclid, after repair) runs fewer
  * than 2*ZBITS+2 times on moduli below 2^ZBITS. */
-//@check id=meet fn=_ZNK4ikos10congruenceINS_8z_numberEEanERKS2_ props=C08,C04 defs=ZM_SMALL=16,ZBITS=3 unwind=8 replace=_ZN4ikos10congruenceINS_8z_numberEEC2ES1_S1_ cbmc=--unwindset,zs_udivrem.0:15,--unwindset,s_udivrem.0:15 backends=minisat,kissat first_timeout=400 timeout=600
+//@check id=meet noauto=1 fn=_ZNK4ikos10congruenceINS_8z_numberEEanERKS2_ props=C08,C04 defs=ZM_SMALL=16,ZBITS=3 unwind=8 replace=_ZN4ikos10congruenceINS_8z_numberEEC2ES1_S1_ cbmc=--unwindset,zs_udivrem.0:15,--unwindset,s_udivrem.0:15 backends=minisat,kissat first_timeout=400 timeout=600 bounded="bit-precise small arithmetic: operands below 2^3 in magnitude only"
 CBIN(meet, _ZNK4ikos10congruenceINS_8z_numberEEanERKS2_)
 /* widening: the same function checked twice in the unbounded mode, once for "describes at least both arguments" (widen)
  * and once for the termination argument (widen_rank: stationary on an included argument, otherwise strictly higher in
  * the well-founded order of post.h); the bounded cross-check widen_b does both at once */
 //@check id=widen fn=_ZNK4ikos10congruenceINS_8z_numberEEooERKS2_ props=C08,C05 cost=5 replace=_ZN4ikos10congruenceINS_8z_numberEEC2ES1_S1_,_ZNK4ikos10congruenceINS_8z_numberEE3gcdES1_S1_S1_ backends=minisat,kissat first_timeout=900 timeout=900
 //@check id=widen_rank fn=_ZNK4ikos10congruenceINS_8z_numberEEooERKS2_ tag=widen harness=h_widen props=C05 cost=9 replace=_ZN4ikos10congruenceINS_8z_numberEEC2ES1_S1_,_ZNK4ikos10congruenceINS_8z_numberEE3gcdES1_S1_S1_ backends=minisat,kissat first_timeout=900 timeout=900
-//@check id=widen_b fn=_ZNK4ikos10congruenceINS_8z_numberEEooERKS2_ tag=widen harness=h_widen props=C08,C05 defs=ZM_SMALL=16,ZBITS=3 replace=_ZN4ikos10congruenceINS_8z_numberEEC2ES1_S1_,_ZNK4ikos10congruenceINS_8z_numberEE3gcdES1_S1_S1_ backends=minisat,kissat first_timeout=400 timeout=600
+//@check id=widen_b fn=_ZNK4ikos10congruenceINS_8z_numberEEooERKS2_ tag=widen harness=h_widen props=C08,C05 defs=ZM_SMALL=16,ZBITS=3 replace=_ZN4ikos10congruenceINS_8z_numberEEC2ES1_S1_,_ZNK4ikos10congruenceINS_8z_numberEE3gcdES1_S1_S1_ backends=minisat,kissat first_timeout=400 timeout=600 bounded="bit-precise small arithmetic: operands below 2^3 in magnitude only"
 #if defined(CHECK_widen_rank)
 #define OKZ_widen_sel OKZ_widen
 #define EXTRA_widen_sel EXTRA_widen
@@ -322,25 +322,25 @@ CBIN(meet, _ZNK4ikos10congruenceINS_8z_numberEEanERKS2_)
 #endif
 CBINP(widen, widen_sel, _ZNK4ikos10congruenceINS_8z_numberEEooERKS2_, 1)
 //@check id=narrow fn=_ZNK4ikos10congruenceINS_8z_numberEEaaERKS2_ props=C08,C05 backends=minisat,kissat first_timeout=900 timeout=900
-//@check id=narrow_b fn=_ZNK4ikos10congruenceINS_8z_numberEEaaERKS2_ tag=narrow harness=h_narrow props=C08,C05 defs=ZM_SMALL=16,ZBITS=3 tier=thorough backends=minisat,kissat first_timeout=400 timeout=600
+//@check id=narrow_b fn=_ZNK4ikos10congruenceINS_8z_numberEEaaERKS2_ tag=narrow harness=h_narrow props=C08,C05 defs=ZM_SMALL=16,ZBITS=3 tier=thorough backends=minisat,kissat first_timeout=400 timeout=600 bounded="bit-precise small arithmetic: operands below 2^3 in magnitude only"
 CBIN(narrow, _ZNK4ikos10congruenceINS_8z_numberEEaaERKS2_)
 
 /* ---------------------------------------------------------------- arithmetic */
 //@check id=add fn=_ZNK4ikos10congruenceINS_8z_numberEEplERKS2_ props=C08 cost=5 replace=_ZN4ikos10congruenceINS_8z_numberEEC2ES1_S1_,_ZNK4ikos10congruenceINS_8z_numberEE3gcdES1_S1_ backends=minisat,kissat first_timeout=900 timeout=900
-//@check id=add_b fn=_ZNK4ikos10congruenceINS_8z_numberEEplERKS2_ tag=add harness=h_add props=C08 defs=ZM_SMALL=16,ZBITS=3 replace=_ZN4ikos10congruenceINS_8z_numberEEC2ES1_S1_,_ZNK4ikos10congruenceINS_8z_numberEE3gcdES1_S1_ tier=thorough backends=minisat,kissat first_timeout=400 timeout=600
+//@check id=add_b fn=_ZNK4ikos10congruenceINS_8z_numberEEplERKS2_ tag=add harness=h_add props=C08 defs=ZM_SMALL=16,ZBITS=3 replace=_ZN4ikos10congruenceINS_8z_numberEEC2ES1_S1_,_ZNK4ikos10congruenceINS_8z_numberEE3gcdES1_S1_ tier=thorough backends=minisat,kissat first_timeout=400 timeout=600 bounded="bit-precise small arithmetic: operands below 2^3 in magnitude only"
 CBIN(add, _ZNK4ikos10congruenceINS_8z_numberEEplERKS2_)
 //@check id=sub fn=_ZNK4ikos10congruenceINS_8z_numberEEmiERKS2_ props=C08 cost=5 replace=_ZN4ikos10congruenceINS_8z_numberEEC2ES1_S1_,_ZNK4ikos10congruenceINS_8z_numberEE3gcdES1_S1_ backends=minisat,kissat first_timeout=900 timeout=900
-//@check id=sub_b fn=_ZNK4ikos10congruenceINS_8z_numberEEmiERKS2_ tag=sub harness=h_sub props=C08 defs=ZM_SMALL=16,ZBITS=3 replace=_ZN4ikos10congruenceINS_8z_numberEEC2ES1_S1_,_ZNK4ikos10congruenceINS_8z_numberEE3gcdES1_S1_ tier=thorough backends=minisat,kissat first_timeout=400 timeout=600
+//@check id=sub_b fn=_ZNK4ikos10congruenceINS_8z_numberEEmiERKS2_ tag=sub harness=h_sub props=C08 defs=ZM_SMALL=16,ZBITS=3 replace=_ZN4ikos10congruenceINS_8z_numberEEC2ES1_S1_,_ZNK4ikos10congruenceINS_8z_numberEE3gcdES1_S1_ tier=thorough backends=minisat,kissat first_timeout=400 timeout=600 bounded="bit-precise small arithmetic: operands below 2^3 in magnitude only"
 CBIN(sub, _ZNK4ikos10congruenceINS_8z_numberEEmiERKS2_)
-//@check id=mul fn=_ZNK4ikos10congruenceINS_8z_numberEEmlERKS2_ props=C08 defs=ZM_SMALL=16,ZBITS=3 replace=_ZN4ikos10congruenceINS_8z_numberEEC2ES1_S1_,_ZNK4ikos10congruenceINS_8z_numberEE3gcdES1_S1_S1_ backends=minisat,kissat first_timeout=400 timeout=600
+//@check id=mul fn=_ZNK4ikos10congruenceINS_8z_numberEEmlERKS2_ props=C08 defs=ZM_SMALL=16,ZBITS=3 replace=_ZN4ikos10congruenceINS_8z_numberEEC2ES1_S1_,_ZNK4ikos10congruenceINS_8z_numberEE3gcdES1_S1_S1_ backends=minisat,kissat first_timeout=400 timeout=600 bounded="bit-precise small arithmetic: operands below 2^3 in magnitude only"
 CBIN(mul, _ZNK4ikos10congruenceINS_8z_numberEEmlERKS2_)
-//@check id=div fn=_ZNK4ikos10congruenceINS_8z_numberEEdvERKS2_ props=C08 defs=ZM_SMALL=16,ZBITS=3 replace=_ZN4ikos10congruenceINS_8z_numberEEC2ES1_S1_ backends=minisat,kissat first_timeout=400 timeout=600
+//@check id=div fn=_ZNK4ikos10congruenceINS_8z_numberEEdvERKS2_ props=C08 defs=ZM_SMALL=16,ZBITS=3 replace=_ZN4ikos10congruenceINS_8z_numberEEC2ES1_S1_ backends=minisat,kissat first_timeout=400 timeout=600 bounded="bit-precise small arithmetic: operands below 2^3 in magnitude only"
 CBIN(div, _ZNK4ikos10congruenceINS_8z_numberEEdvERKS2_)
-//@check id=rem fn=_ZNK4ikos10congruenceINS_8z_numberEErmERKS2_ props=C08 defs=ZM_SMALL=16,ZBITS=3 replace=_ZN4ikos10congruenceINS_8z_numberEEC2ES1_S1_,_ZNK4ikos10congruenceINS_8z_numberEE3gcdES1_S1_,_ZNK4ikos10congruenceINS_8z_numberEE3gcdES1_S1_S1_ backends=minisat,kissat first_timeout=400 timeout=600
+//@check id=rem fn=_ZNK4ikos10congruenceINS_8z_numberEErmERKS2_ props=C08 defs=ZM_SMALL=16,ZBITS=3 replace=_ZN4ikos10congruenceINS_8z_numberEEC2ES1_S1_,_ZNK4ikos10congruenceINS_8z_numberEE3gcdES1_S1_,_ZNK4ikos10congruenceINS_8z_numberEE3gcdES1_S1_S1_ backends=minisat,kissat first_timeout=400 timeout=600 bounded="bit-precise small arithmetic: operands below 2^3 in magnitude only"
 CBIN(rem, _ZNK4ikos10congruenceINS_8z_numberEErmERKS2_)
-//@check id=sdiv fn=_ZNK4ikos10congruenceINS_8z_numberEE4SDivERKS2_ props=C08 defs=ZM_SMALL=16,ZBITS=3 replace=_ZN4ikos10congruenceINS_8z_numberEEC2ES1_S1_ backends=minisat,kissat first_timeout=400 timeout=600
+//@check id=sdiv fn=_ZNK4ikos10congruenceINS_8z_numberEE4SDivERKS2_ props=C08 defs=ZM_SMALL=16,ZBITS=3 replace=_ZN4ikos10congruenceINS_8z_numberEEC2ES1_S1_ backends=minisat,kissat first_timeout=400 timeout=600 bounded="bit-precise small arithmetic: operands below 2^3 in magnitude only"
 CBINP(sdiv, div, _ZNK4ikos10congruenceINS_8z_numberEE4SDivERKS2_, 1)
-//@check id=srem fn=_ZNK4ikos10congruenceINS_8z_numberEE4SRemERKS2_ props=C08 defs=ZM_SMALL=16,ZBITS=3 replace=_ZN4ikos10congruenceINS_8z_numberEEC2ES1_S1_,_ZNK4ikos10congruenceINS_8z_numberEE3gcdES1_S1_,_ZNK4ikos10congruenceINS_8z_numberEE3gcdES1_S1_S1_ backends=minisat,kissat first_timeout=400 timeout=600
+//@check id=srem fn=_ZNK4ikos10congruenceINS_8z_numberEE4SRemERKS2_ props=C08 defs=ZM_SMALL=16,ZBITS=3 replace=_ZN4ikos10congruenceINS_8z_numberEEC2ES1_S1_,_ZNK4ikos10congruenceINS_8z_numberEE3gcdES1_S1_,_ZNK4ikos10congruenceINS_8z_numberEE3gcdES1_S1_S1_ backends=minisat,kissat first_timeout=400 timeout=600 bounded="bit-precise small arithmetic: operands below 2^3 in magnitude only"
 CBINP(srem, rem, _ZNK4ikos10congruenceINS_8z_numberEE4SRemERKS2_, 1)
 //@check id=udiv fn=_ZNK4ikos10congruenceINS_8z_numberEE4UDivERKS2_ props=C08
 CBIN(udiv, _ZNK4ikos10congruenceINS_8z_numberEE4UDivERKS2_)
@@ -348,7 +348,7 @@ CBIN(udiv, _ZNK4ikos10congruenceINS_8z_numberEE4UDivERKS2_)
 CBIN(urem, _ZNK4ikos10congruenceINS_8z_numberEE4URemERKS2_)
 
 //@check id=neg fn=_ZNK4ikos10congruenceINS_8z_numberEEngEv props=C08 replace=_ZN4ikos10congruenceINS_8z_numberEEC2ES1_S1_ backends=minisat,kissat first_timeout=900 timeout=900
-//@check id=neg_b fn=_ZNK4ikos10congruenceINS_8z_numberEEngEv tag=neg harness=h_neg props=C08 defs=ZM_SMALL=16,ZBITS=3 replace=_ZN4ikos10congruenceINS_8z_numberEEC2ES1_S1_ tier=thorough backends=minisat,kissat first_timeout=400 timeout=600
+//@check id=neg_b fn=_ZNK4ikos10congruenceINS_8z_numberEEngEv tag=neg harness=h_neg props=C08 defs=ZM_SMALL=16,ZBITS=3 replace=_ZN4ikos10congruenceINS_8z_numberEEC2ES1_S1_ tier=thorough backends=minisat,kissat first_timeout=400 timeout=600 bounded="bit-precise small arithmetic: operands below 2^3 in magnitude only"
 void _ZNK4ikos10congruenceINS_8z_numberEEngEv(C *ret, C *self)
 __CPROVER_requires(FRESH(neg, ret, sizeof(C)) && FRESH(neg, self, sizeof(C)) && c_ok(*self) && TOP(neg, GRANGE))
 __CPROVER_assigns(*ret)
@@ -370,7 +370,7 @@ CBIN(xor, _ZNK4ikos10congruenceINS_8z_numberEE3XorERKS2_)
 #ifndef SHB
 #define SHB 20
 #endif
-//@check id=shl fn=_ZNK4ikos10congruenceINS_8z_numberEE3ShlERKS2_ props=C08 defs=ZM_SMALL=32,ZBITS=3,SHB=16,CTBITS=26 replace=_ZN4ikos10congruenceINS_8z_numberEEC2ES1_S1_,_ZNK4ikos10congruenceINS_8z_numberEE3gcdES1_S1_ backends=minisat,kissat first_timeout=400 timeout=600
+//@check id=shl fn=_ZNK4ikos10congruenceINS_8z_numberEE3ShlERKS2_ props=C08 defs=ZM_SMALL=32,ZBITS=3,SHB=16,CTBITS=26 replace=_ZN4ikos10congruenceINS_8z_numberEEC2ES1_S1_,_ZNK4ikos10congruenceINS_8z_numberEE3gcdES1_S1_ backends=minisat,kissat first_timeout=400 timeout=600 bounded="bit-precise small arithmetic: operands below 2^3 in magnitude only"
 CBINP(shl, shl, _ZNK4ikos10congruenceINS_8z_numberEE3ShlERKS2_, c_a(*x) < SHB && c_b(*x) < SHB && TOP(shl, g_y < SHB))
 
 /* AShr / LShr delegate to interval<z_number>::AShr / LShr on singletons.  The four interval functions they call are
